@@ -184,6 +184,13 @@ type nxCfg struct {
 	// budgets for deviations
 	Timeouts, Ticks, Crashes, Drops, Dups, Reorders, Writes, Reads, LazyApplies, Heartbeats, Transfers, Stops int
 	Horizon                                                                                                   int
+	// RequireComplete: at the end of the scenario (no default event left) every
+	// client operation of the script must have completed (bounded liveness; use
+	// only with benign deviations)
+	RequireComplete bool
+	// RealTime: raft's tick counters are not normalised; Tick events advance
+	// real election/heartbeat timers (deterministic, distinct election timeouts)
+	RealTime bool
 }
 
 type nxMsg struct {
@@ -292,7 +299,7 @@ func (c *nxCluster) startHost(h *nxHost) {
 	c.applyWorker(h)
 	c.snapshotWorker(h)
 	c.applyWorker(h)
-	raft.VPeer{P: &n.p}.Normalize()
+	c.normalize(h)
 	h.pipe.step = true
 	c.settle(h)
 }
@@ -306,8 +313,17 @@ func (c *nxCluster) stepWorker(h *nxHost) {
 	if err := h.eng.processSteps(1, active, nodes, make([]pb.Update, 0), nil); err != nil {
 		c.fail("replica %d: processSteps error %v", h.id, err)
 	}
-	raft.VPeer{P: &h.node.p}.Normalize()
+	c.normalize(h)
 	c.pollEngine(h)
+}
+
+func (c *nxCluster) normalize(h *nxHost) {
+	vp := raft.VPeer{P: &h.node.p}
+	if c.cfg.RealTime {
+		vp.SetElectionTimeoutValue(10 + (h.id*3)%10)
+		return
+	}
+	vp.Normalize()
 }
 
 // pollEngine transfers the engine's own work-ready signals (raised by
@@ -604,6 +620,12 @@ func (c *nxCluster) defaultEvent() (uint32, bool) {
 	}
 	if len(c.msgs) > 0 {
 		return nxev(nxDeliver, 0, 0), true
+	}
+	// a held-back apply worker is released before the scenario goes on
+	for _, h := range c.hosts {
+		if c.lazy[h.id] {
+			return nxev(nxReleaseApply, uint32(h.id), 0), true
+		}
 	}
 	if c.spos < len(c.cfg.Script) {
 		return c.scriptEvent(c.cfg.Script[c.spos]) | 1<<31, true
